@@ -213,3 +213,18 @@ def register(mut):
             }  else {
                 return true;
             }''', ['C15'])
+    mut('pub-trim-off-by-one', 'publisher.h',
+        '''                     need_len = std::max(need_len, _pos - x._pos);''',
+        '''                     need_len = std::max(need_len, _pos - x._pos - 2);''', ['C16'])
+    mut('pub-advance-ignores-closed', 'publisher.h',
+        '''            if (l._pos+1 == _pos && !_closed) return false;''',
+        '''            if (l._pos+1 == _pos) return false;''', ['C16'])
+    mut('pub-no-wakeup', 'publisher.h',
+        '''             for (awaiter *x: wk) x->resume();''',
+        '''             for (awaiter *x: wk) if (wk.size() < 2) x->resume();''', ['C16'])
+    mut('pub-copy-from-start', 'publisher.h',
+        '''            auto r = subscribe_lk(sub, _regs[h]._pos);''',
+        '''            auto r = subscribe_lk(sub, _regs[h]._pos > 0 ? _regs[h]._pos - 1 : 0);''', ['C16'])
+    mut('pub-kick-not-flagged', 'publisher.h',
+        '''                iter->_kicked =true;''',
+        '''                iter->_kicked =false;''', ['C16'])
